@@ -7,28 +7,36 @@
 (* and leaves the current directory's look-alike folders alone.                  *)
 EXTENDS Integers, Sequences, FiniteSets
 CONSTANTS MaxOps
-VARIABLES cwd, dirs, figs, outx, res, hist
-vars == <<cwd, dirs, figs, outx, res, hist>>
+VARIABLES cwd, dirs, figs, outx, res, hist,
+          data,     \* which recording the sample's FCS file holds right now (0: the original, 1: another one under the same name)
+          shown     \* which recording the output workbook describes (Unset before the first run)
+vars == <<cwd, dirs, figs, outx, res, hist, data, shown>>
+Unset == 2
 Places == {"wb", "other"}
 Kinds == {"plot_beads", "plot_samples"}
 Dir(p, k) == <<p, k>>
 
-Init == cwd = "wb" /\ dirs = {} /\ figs = {} /\ outx = FALSE /\ res = "none" /\ hist = <<>>
+Init == cwd = "wb" /\ dirs = {} /\ figs = {} /\ outx = FALSE /\ res = "none" /\ hist = <<>> /\ data = 0 /\ shown = Unset
 Log(op) == Len(hist) < MaxOps /\ hist' = Append(hist, op)
-Chdir(p) == cwd # p /\ cwd' = p /\ Log(<<"chdir", p>>) /\ UNCHANGED <<dirs, figs, outx, res>>
+Chdir(p) == cwd # p /\ cwd' = p /\ Log(<<"chdir", p>>) /\ UNCHANGED <<dirs, figs, outx, res, data, shown>>
 (* somebody (an earlier, unrelated analysis) leaves a folder of that name in the current directory *)
 Stray(k) == /\ cwd = "other" /\ Dir("other", k) \notin dirs
-            /\ dirs' = dirs \cup {Dir("other", k)} /\ Log(<<"stray", k>>) /\ UNCHANGED <<cwd, figs, outx, res>>
+            /\ dirs' = dirs \cup {Dir("other", k)} /\ Log(<<"stray", k>>) /\ UNCHANGED <<cwd, figs, outx, res, data, shown>>
 Run(plot) == /\ Log(<<"run", IF plot THEN "plots" ELSE "noplots">>)
              /\ outx' = TRUE /\ res' = "completed"
              /\ dirs' = IF plot THEN dirs \cup {Dir("wb", k) : k \in Kinds} ELSE dirs
              /\ figs' = IF plot THEN figs \cup {Dir("wb", k) : k \in Kinds} ELSE figs
-             /\ UNCHANGED cwd
-Next == (\E p \in Places : Chdir(p)) \/ (\E k \in Kinds : Stray(k)) \/ (\E b \in BOOLEAN : Run(b))
+             /\ shown' = data                \* a run describes the files as they are NOW
+             /\ UNCHANGED <<cwd, data>>
+(* between two runs the sample's file is replaced by another recording under the same name (re-exported, re-acquired) *)
+Replace == /\ outx /\ Log(<<"replace", "S1">>) /\ data' = 1 - data
+           /\ UNCHANGED <<cwd, dirs, figs, outx, res, shown>>
+Next == Replace \/ (\E p \in Places : Chdir(p)) \/ (\E k \in Kinds : Stray(k)) \/ (\E b \in BOOLEAN : Run(b))
 Spec == Init /\ [][Next]_vars
 
 StrayUntouched == \A k \in Kinds : Dir("other", k) \notin figs
 FiguresUnderWorkbook == figs \subseteq {Dir("wb", k) : k \in Kinds} /\ figs \subseteq dirs
 RunCompletes == [][hist' # hist /\ hist'[Len(hist')][1] = "run" => res' = "completed" /\ outx']_vars
+OutputFaithful == [][hist' # hist /\ hist'[Len(hist')][1] = "run" => shown' = data']_vars
 NothingRemoved == [][dirs \subseteq dirs' /\ figs \subseteq figs' /\ (outx => outx')]_vars
 =============================================================================
